@@ -226,7 +226,11 @@ func genbankSourceParser(gb *GenBank, depth int) pars.Parser {
 		}
 
 		if err := organismParser(state, pars.Void); err != nil {
-			state.Pop()
+			// A SOURCE field without its ORGANISM line fails the record. Dropping
+			// the saved positions says so; popping one here as well as in
+			// tryAllParsers went back to whatever position an earlier parser had
+			// left on the stack and read the lines behind it again.
+			state.Clear()
 			return err
 		}
 
